@@ -1212,3 +1212,147 @@ func (p *P) findBadPath(fn *ssa.Function, starts []Point, o pathOpts) (bool, Pat
 	}
 	return true, res
 }
+
+// ---------------------------------------------------------------------------------------------
+// wrappers ("virtual inlining" of value provenance)
+
+// putFamily returns the queue producer functions plus local wrappers around them: functions that
+// call a member of the family and hand its error result back to their caller (possibly after a
+// retry loop). A refactoring that moves the enqueue into such a helper keeps every rule that talks
+// about "the enqueue" working: calls of a wrapper are enqueue sites of the caller.
+func (p *P) putFamily() (family []*ssa.Function, wrappers []*ssa.Function) {
+	prod, _ := p.queueRoles()
+	family = append(family, prod...)
+	for iter := 0; iter < 2; iter++ {
+		var names []string
+		for _, f := range family {
+			names = append(names, p.fname(f))
+		}
+		m := p.mCall(names...)
+		for _, g := range p.fnList {
+			if inFns(g, family) {
+				continue
+			}
+			calls := findInstrs(g, m)
+			if len(calls) == 0 {
+				continue
+			}
+			isRes := func(v ssa.Value) bool {
+				for _, c := range calls {
+					if v == ssa.Value(c.(*ssa.Call)) {
+						return true
+					}
+				}
+				return false
+			}
+			wraps := false
+			for _, ret := range returnsOf(g) {
+				if v := lastResult(ret); v != nil && derivedFrom(v, isRes, 4) {
+					if _, isIface := v.Type().Underlying().(*types.Interface); isIface {
+						wraps = true
+					}
+				}
+			}
+			if wraps && !p.wakesAfterEnqueue(g, calls) {
+				family = append(family, g)
+				wrappers = append(wrappers, g)
+			}
+		}
+	}
+	return
+}
+
+func (p *P) mPutFamily() M {
+	fam, _ := p.putFamily()
+	var names []string
+	for _, f := range fam {
+		names = append(names, p.fname(f))
+	}
+	return p.mCall(names...)
+}
+
+// family returns root plus the package-local functions it (transitively, depth<=2) calls that have
+// the same receiver type and are called from nowhere else: helpers split off from root.
+func (p *P) family(root *ssa.Function) []*ssa.Function {
+	out := []*ssa.Function{root}
+	if root == nil {
+		return nil
+	}
+	for depth := 0; depth < 2; depth++ {
+		for _, f := range append([]*ssa.Function{}, out...) {
+			allInstrs(f, func(in ssa.Instruction) {
+				g := p.localCallee(in)
+				if g == nil || inFns(g, out) || recvNamed(g) != recvNamed(root) || g.Parent() != nil {
+					return
+				}
+				// all callers inside the family
+				only := true
+				for _, h := range p.fnList {
+					if inFns(h, out) || h == g {
+						continue
+					}
+					if len(findInstrs(h, p.mCallD(p.fname(g)))) > 0 {
+						only = false
+					}
+				}
+				if only {
+					out = append(out, g)
+				}
+			})
+		}
+	}
+	return out
+}
+
+// argsFor resolves a value that is a parameter of f to the corresponding arguments at f's static
+// call sites in the package (one level); other values are returned unchanged.
+func (p *P) argsFor(v ssa.Value, f *ssa.Function) []ssa.Value {
+	prm, ok := v.(*ssa.Parameter)
+	if !ok {
+		return []ssa.Value{v}
+	}
+	idx := -1
+	for i, q := range f.Params {
+		if q == prm {
+			idx = i
+		}
+	}
+	if idx < 0 {
+		return []ssa.Value{v}
+	}
+	var out []ssa.Value
+	for _, g := range p.fnList {
+		for _, ci := range findInstrs(g, p.mCall(p.fname(f))) {
+			c := ci.(*ssa.Call)
+			if idx < len(c.Call.Args) {
+				out = append(out, c.Call.Args[idx])
+			}
+		}
+	}
+	if len(out) == 0 {
+		return []ssa.Value{v}
+	}
+	return out
+}
+
+// wakesAfterEnqueue: on every success path after each of the given enqueue calls, g reaches the
+// wake-up routine itself (then g is a complete sender, not a wrapper whose caller must wake).
+func (p *P) wakesAfterEnqueue(g *ssa.Function, calls []ssa.Instruction) bool {
+	w := p.wakeRoles()
+	var names []string
+	for _, f := range w.wake {
+		names = append(names, p.fname(f))
+	}
+	mWake := p.mCall(names...)
+	for _, ci := range calls {
+		call := ci.(*ssa.Call)
+		res := p.mustPass(g, []Point{pointOf(call)},
+			func(in ssa.Instruction) bool { return p.evMust(in, mWake, 1) },
+			func(b *ssa.BasicBlock, i int) bool { return !edgeKnownNonNil(b, i, call) },
+			func(ret *ssa.Return, pred *ssa.BasicBlock) bool { return !isErrorExit(ret) })
+		if !res.OK {
+			return false
+		}
+	}
+	return true
+}
